@@ -600,6 +600,7 @@ class QueryObjectDescriptor(CanBehaveLikeAVariable[T], ABC):
     selected_variables: List[CanBehaveLikeAVariable[T]] = field(default_factory=list)
     warned_vars: typing.Set = field(default_factory=set, init=False)
     rule_mode: bool = field(default=False, init=False)
+    _visiting_selected_variables_: bool = field(default=False, init=False, repr=False)
 
     def __post_init__(self):
         super().__post_init__()
@@ -607,6 +608,30 @@ class QueryObjectDescriptor(CanBehaveLikeAVariable[T], ABC):
             self.rule_mode = True
         for variable in self.selected_variables:
             variable._var_._node_.enclosed = True
+
+    def _reset_cache_(self) -> None:
+        self._visit_selected_variables_too_(super()._reset_cache_, lambda variable: variable._reset_cache_())
+
+    def _clear_result_caches_(self) -> None:
+        self._visit_selected_variables_too_(super()._clear_result_caches_,
+                                            lambda variable: variable._clear_result_caches_())
+
+    def _visit_selected_variables_too_(self, visit_me_and_my_children: Callable, visit: Callable) -> None:
+        """
+        The selected expressions are evaluated by the descriptor, but they are not its children in the expression
+        graph (e.g. a sub-query that is only selected, or only mentioned inside a selected expression), so a walk
+        over the children does not reach them. A selected expression may lead back to this descriptor (an inferred
+        variable does), hence the guard.
+        """
+        if self._visiting_selected_variables_:
+            return
+        self._visiting_selected_variables_ = True
+        try:
+            visit_me_and_my_children()
+            for variable in self.selected_variables:
+                visit(variable)
+        finally:
+            self._visiting_selected_variables_ = False
 
     @lru_cache(maxsize=None)
     def _required_variables_from_child_(self, child: Optional[SymbolicExpression] = None, when_true: bool = True):
